@@ -132,6 +132,9 @@ def classify_after(first, name):
 
 
 def replay(data):
+    if 'history' in data:
+        from . import histcheck
+        return histcheck.replay('C18', data)
     kind = data['kind']
     if kind == 'stateful':
         alone = classify(data['name'])
@@ -386,6 +389,9 @@ def check(rep):
     rep.sample(dict(query='classify FeatureBranch: L_impl == grammar', result='unsat both inclusions'))
     rep.sample(dict(round_trip=triples[0] if triples else None))
     rep.sample(dict(query_log=q.log[:6]))
+    # the names in use: a queue name derived for one pull request is read back as that pull request's
+    from . import histcheck
+    histcheck.check(rep, 'C18')
 
 
 def S_prefix(n):
